@@ -91,3 +91,65 @@ def kwarg(call: ast.Call, name: str):
 
 def where(m, cname, fn, node=None):
     return f"{m}:{cname}.{fn.name}@{getattr(node or fn, 'lineno', '?')}"
+
+
+def const_eval(mod, expr, depth=0):
+    """Evaluate a constant expression of module `mod` (names resolved through module
+    constants and imports); raises ValueError when not constant."""
+    if depth > 12:
+        raise ValueError("too deep")
+    if isinstance(expr, ast.Constant):
+        return expr.value
+    if isinstance(expr, ast.Name):
+        if expr.id in mod.consts:
+            return const_eval(mod, mod.consts[expr.id], depth + 1)
+        if expr.id in mod.imports:
+            m, n = mod.imports[expr.id]
+            if m.startswith("liquid") and n is not None:
+                return const_eval(load.get_module(m), ast.Name(id=n, ctx=ast.Load()), depth + 1)
+        raise ValueError(f"unknown name {expr.id}")
+    if isinstance(expr, (ast.Tuple, ast.List, ast.Set)):
+        vals = [const_eval(mod, e, depth + 1) for e in expr.elts]
+        return tuple(vals) if isinstance(expr, ast.Tuple) else (vals if isinstance(expr, ast.List) else set(vals))
+    if isinstance(expr, ast.Dict):
+        return {const_eval(mod, k, depth + 1): const_eval(mod, v, depth + 1) for k, v in zip(expr.keys, expr.values)}
+    if isinstance(expr, ast.Call):
+        f = dotted(expr.func)
+        if f == "sys.intern" and len(expr.args) == 1:
+            return const_eval(mod, expr.args[0], depth + 1)
+        if f in ("frozenset", "set", "tuple", "list") and len(expr.args) <= 1:
+            inner = const_eval(mod, expr.args[0], depth + 1) if expr.args else ()
+            return {"frozenset": frozenset, "set": set, "tuple": tuple, "list": list}[f](inner)
+    if isinstance(expr, ast.Attribute) and isinstance(expr.value, ast.Name) and expr.value.id == "self":
+        raise ValueError("self attribute")
+    raise ValueError(f"not constant: {dotted(expr)[:60]}")
+
+
+def tag_classes():
+    """[(module, class, ClassDef)] of Tag subclasses"""
+    out = []
+    for m, cname, cnode in iter_classes():
+        names = [c[1] for c in load.mro(m, cname)]
+        if "Tag" in names[1:]:
+            out.append((m, cname, cnode))
+    return out
+
+
+def class_const(m, cname, attr):
+    """constant class attribute through the MRO (ValueError if absent / not constant)"""
+    for mm, cc in load.mro(m, cname):
+        if not mm.startswith("liquid"):
+            continue
+        mod = load.get_module(mm)
+        cn = mod.classes.get(cc)
+        if cn is None:
+            continue
+        for stmt in cn.body:
+            tgt = None
+            if isinstance(stmt, ast.Assign) and len(stmt.targets) == 1 and isinstance(stmt.targets[0], ast.Name):
+                tgt, val = stmt.targets[0].id, stmt.value
+            elif isinstance(stmt, ast.AnnAssign) and isinstance(stmt.target, ast.Name) and stmt.value is not None:
+                tgt, val = stmt.target.id, stmt.value
+            if tgt == attr:
+                return const_eval(mod, val)
+    raise ValueError(f"{cname}.{attr} not found")
